@@ -191,11 +191,14 @@ func gosortExec(ops []string, mon *Mon) []string {
 			}
 			sort.Stable(ms) // fuzzy.Matches implements sort.Interface with the library's own Less
 			ord := make([]int, len(ms))
-			ties := false
+			ties, reversed := false, true
 			for i, m := range ms {
 				ord[i] = m.Index
 				if i > 0 && ms[i-1].Score == m.Score {
 					ties = true
+					if ms[i-1].Index < m.Index {
+						reversed = false
+					}
 				}
 			}
 			out = append(out, "ord "+gosortJoinInts(ord))
@@ -217,6 +220,12 @@ func gosortExec(ops []string, mon *Mon) []string {
 			}
 			if ties {
 				mon.Tag("ties")
+				// an observation, not a property: with the non-strict Less equal scores come out in reverse input order
+				if reversed {
+					mon.Tag("ties-in-reverse-input-order")
+				} else {
+					mon.Tag("ties-not-in-reverse-input-order")
+				}
 			}
 			if len(scores) > 20 && len(scores)%20 != 0 {
 				mon.Tag("ragged-last-block")
